@@ -5,6 +5,8 @@
  *   FORM 3  ALU-imm   "<mnem> rd, rs1, N"        imm[11:0] rs1 f3 rd 0010011
  *   FORM 4  branch    "<mnem> rs1, rs2, target"  B-type immediate, rs2 rs1 f3 1100011, offset = target - address
  *   FORM 5  jal       "jal rd, target"           J-type immediate, rd 1101111
+ *   FORM 6  R-type    "<mnem> rd, rs1, rs2"      funct7 rs2 rs1 f3 rd 0110011
+ *   FORM 7  shift-imm "<mnem> rd, rs1, N"        funct7 shamt rs1 f3 rd 0010011 (shamt 0..31)
  * (The RISC-V Instruction Set Manual, Volume I, chapter 2 and the instruction listing.)  Registers x0..x31 and N / target
  * are symbolic (all 32-bit values), the location counter is any multiple of 4 below 2^30, pass 2.
  * POST  N (or the offset) representable in the form's immediate field  => accepted, exactly one 32-bit word is emitted and
@@ -16,6 +18,9 @@
 #include <string.h>
 #include "core/tokens.h"
 #include "core/eval_expression.h"
+#ifndef F7
+#define F7 0
+#endif
 #define VSTR(x) #x
 #define VXSTR(x) VSTR(x)
 extern "C" { int g_pos, g_len, g_type[12]; char g_tok[12][4]; int g_N; unsigned g_word; int g_nwords; }
@@ -85,6 +90,17 @@ extern "C" void h_riscv_form()
     ASSUME(g_N >= 0 && g_N < (1 << 30));
     fits = off >= -1048576 && off <= 1048574 && (off & 1) == 0;
     want = (bit(o, 20) << 31) | (((o >> 1) & 0x3ff) << 21) | (bit(o, 11) << 20) | (((o >> 12) & 0xff) << 12) | ((unsigned)ra << 7) | 0x6f; }
+#elif FORM == 6
+  /* R-type "<mnem> rd, rs1, rs2": funct7 rs2 rs1 f3 rd 0110011 */
+  { int rc = nondet_int(); ASSUME(rc >= 0 && rc <= 31);
+    reg(ra); comma(); reg(rb); comma(); reg(rc);
+    fits = 1;
+    want = ((unsigned)F7 << 25) | ((unsigned)rc << 20) | ((unsigned)rb << 15) | ((unsigned)F3 << 12) | ((unsigned)ra << 7) | 0x33; }
+#elif FORM == 7
+  /* shift by immediate "<mnem> rd, rs1, N" (RV32I: shamt 0..31): funct7 shamt rs1 f3 rd 0010011 */
+  reg(ra); comma(); reg(rb); comma(); num();
+  fits = g_N >= 0 && g_N <= 31;
+  want = ((unsigned)F7 << 25) | ((u & 0x1f) << 20) | ((unsigned)rb << 15) | ((unsigned)F3 << 12) | ((unsigned)ra << 7) | 0x13;
 #endif
   tk(TOKEN_EOL, '\n', 0, 0);
   char instr[TOKENLEN] = VXSTR(MNEM);
